@@ -463,6 +463,14 @@ func vbRunScenario(args []string) string {
 		cur := current(sid)
 		return cur != nil && cur != prev
 	}
+	// set by the poll's own watcher goroutine (below) once it has seen the registration: the gate must not take the
+	// matching lock itself (an L event may hold it, and the gated event may be meant to queue behind it)
+	regSeen := map[string]bool{}
+	sawRegistered := func(key string) bool {
+		stMu.Lock()
+		defer stMu.Unlock()
+		return regSeen[key]
+	}
 	gate := func(e vbEvent) {
 		if !sequenced || e.isRel {
 			return
@@ -478,7 +486,7 @@ func vbRunScenario(args []string) string {
 				ok := false
 				switch p.kind {
 				case 'P':
-					ok = st.returned || (!st.arrived.IsZero() && registered(key, p.f[0]))
+					ok = st.returned || (!st.arrived.IsZero() && sawRegistered(key))
 					if ok && p.at+10000+100 <= e.at && !st.returned {
 						// its 10 s are over: it must have expired or been matched (then it has returned too)
 						ok = false
@@ -546,6 +554,9 @@ func vbRunScenario(args []string) string {
 					for {
 						if registered(key, e.f[0]) {
 							stamp("t"+key, 1, time.Now(), start)
+							stMu.Lock()
+							regSeen[key] = true
+							stMu.Unlock()
 							return
 						}
 						select {
